@@ -82,6 +82,15 @@ Lemma errors_is_refuted :
   /\ g_result (consumer_of (s "errors.Unwrap") (s "")) [s "Error"; s "Unwrap"] = s "Unwrap".
 Proof. vm_compute. repeat split. Qed.
 
+(** the composed wrappers: every subset of {Read, WriteTo}, {Write, ReadFrom}, {Header, Write, WriteHeader, Hijack}
+    containing the static interface is served as in compiled Go, whatever the provenance of the methods *)
+Lemma composed_ok_now :
+  consumer_ok maptypes_gen copy_src = true /\ consumer_ok maptypes_gen copy_dst = true /\ consumer_ok maptypes_gen http_rw = true
+  /\ y_result maptypes_gen copy_src [s "Read"; s "WriteTo"] = s "WriterTo"
+  /\ y_result maptypes_gen copy_dst [s "ReadFrom"; s "Write"; s "WriteString"] = s "ReaderFrom"
+  /\ y_result maptypes_gen http_rw (map s ["Header"; "Hijack"; "Write"; "WriteHeader"]%string) = s "Hijacker".
+Proof. vm_compute. repeat split. Qed.
+
 Lemma host_side_inhabited :
   y_result maptypes_gen (consumer_of (s "fmt.Sprintf") (s "str")) [s "Format"; s "String"] = s "Formatter"
   /\ g_result (consumer_of (s "fmt.Sprintf") (s "str")) [s "Format"; s "String"] = s "Formatter"
